@@ -1,6 +1,7 @@
 # shared by setup.sh / build.sh / check.sh  (sourced)
 set -euo pipefail
-V=/verif
+V=${VERIF_DIR:-$(cd "$(dirname "${BASH_SOURCE[0]}")/.." && pwd)}
+export VERIF_DIR=$V
 REPO=${VERIF_REPO:-/repo}
 B=$V/build
 JOBS=${VERIF_JOBS:-16}
